@@ -571,7 +571,7 @@ func run(raw json.RawMessage) driver.Result {
 			return fmt.Sprintf("%s-%d", coqfmt.Pick(r, []string{"opt", "Flag", "x_y", "some-val"}), r.Intn(1000))
 		},
 		Embedded: true, Skipped: true, SingleLetterNum: 1, SingleLetterDen: 10,
-		OddTags: []string{"_", "x_", "_x", "__", "x__y"}, OddTagNum: 1, OddTagDen: 40}
+		OddTags: []string{"_", "x_", "_x", "__", "x__y", "-x", "a=b", "--"}, OddTagNum: 1, OddTagDen: 30}
 	if r.Chance(1, 6) {
 		o.AliasKeys = []string{"dials", srcTag}
 		o.AliasNum, o.AliasDen = 1, 4
@@ -616,6 +616,9 @@ func run(raw json.RawMessage) driver.Result {
 	for _, fi := range infos {
 		if !r.Chance(pSet, 4) {
 			continue
+		}
+		if fi.name == "" || strings.HasPrefix(fi.name, "-") || strings.Contains(fi.name, "=") {
+			continue // no argv token addresses such a flag (pflag registers it, its tokeniser rejects the argument)
 		}
 		n := 1
 		if r.Chance(1, 3) {
